@@ -110,7 +110,9 @@ def explore(case):
             res.fail(site="closed_loop", clause="settles_%s" % k, cls=cls, detail=dict(cfg=cfg, measured=m, limit=lim), sub="loop", case=case)
     if not yaw_err < 0.05:
         res.fail(site="closed_loop", clause="settles_attitude_to_heading_setpoint", cls=cls, detail=dict(cfg=cfg, measured=m, limit=0.05), sub="loop", case=case)
-    res.add_set("settled_worst", "%s pos=%.5f v=%.5f w=%.5f tilt=%.5f yaw_err=%.5f" % (cls, pos, v, w, tilt, yaw_err))
+    for kk, vv in m.items():
+        if math.isfinite(vv):
+            res.counters["max_settled_%s_micro[%s]" % (kk, cls)] = int(min(vv, 1e6) * 1e6)
     if case.get("sample"):
         res.samples.append(dict(cfg=cfg, settled=m, states=int(len(X))))
     return res
